@@ -147,7 +147,10 @@ def run(ctx):
                     viol("Interval.%s/raises" % nm, "[%r,%r] %s %r raised %r" % (a, b, nm, s, r[1]), [a, b, s])
                     continue
                 res = r[1]
-                if not (res.start <= res.end):
+                if not (hasattr(res, "start") and hasattr(res, "end")):
+                    viol("Interval.%s/result-is-not-an-interval" % nm, "[%r,%r] %s %r = %r" % (a, b, nm, s, res),
+                         [a, b, s])
+                elif not (res.start <= res.end):
                     viol("Interval.%s/start>end" % nm, "[%r,%r] %s %r = (%r,%r)" % (a, b, nm, s, res.start, res.end),
                          [a, b, s])
                 elif float(res.start) != float(e0) or float(res.end) != float(e1):
@@ -162,6 +165,10 @@ def run(ctx):
                 viol("Interval.__round__/raises", "round([%r,%r],%r) raised %r" % (a, b, n, r[1]), [a, b, n])
             else:
                 res = r[1]
+                if not (hasattr(res, "start") and hasattr(res, "end")):
+                    viol("Interval.__round__/result-is-not-an-interval", "round([%r,%r],%r)=%r" % (a, b, n, res),
+                         [a, b, n])
+                    continue
                 e0 = round(a, n) if n is not None else round(a)
                 e1 = round(b, n) if n is not None else round(b)
                 if res.start != e0 or res.end != e1 or not res.start <= res.end:
@@ -315,6 +322,10 @@ def run(ctx):
                          "[%r,%r] %s %r raised %r" % (a, b, nm, s, r[1]), [a, b, s])
                     continue
                 res = r[1]
+                if not (hasattr(res, "start") and hasattr(res, "end")):
+                    viol("AngleInterval.%s/result-is-not-an-interval" % nm, "[%r,%r] %s %r = %r" % (a, b, nm, s, res),
+                         [a, b, s])
+                    continue
                 ok = (res.start <= res.end and abs((res.end - res.start) - ln) < 1e-9
                       and abs(math.remainder(res.start - (a + sgn), TWO_PI)) < 1e-9
                       and -TWO_PI - 1e-12 <= res.start and res.end <= TWO_PI + 1e-12)
